@@ -200,6 +200,13 @@ def run(ck):
     ctx = ck.ctx
     p = ctx.p
     ck.clause("C15.1", "resolution results are the input segments or `segment - x`; __sub__/slice only take sub-sequences")
+    if ck.wants("C15.15"):
+        from .c02 import records_frozen as _rf15
+        _rf15(ck, "C15.15", content={"alignedPositions", "allPeakPositions"},
+              clause="a segment is not altered after it was built: its start / end pair are the first / last element of the list of pairs "
+                     "it keeps (alignedPositions) - a plotter that sorts that list in place (it runs inside the worker, on the segments "
+                     "that are joined later) exchanges start and end of every reverse-strand segment: the conflict test of the join sees "
+                     "no overlap and both segments keep the shared label")
     ck.clause("C15.2", "pairwise pass over consecutive chain members, results written back in place")
     ck.clause("C15.3", "removed positions come from the own conflicting sub-segment; sub-segments are slices over the overlap")
     ck.clause("C15.4", "slice window: drop what lies before `start` on both sequences; only an aligned pair beyond `end` closes the sub-run")
